@@ -1,1 +1,18 @@
 //! Scripted CQL v4 mock node(s) on loopback for the end-to-end ties (see docs/mocknode.md).
+//!
+//! * `wire`    — own frame reader/writer, primitive codecs, request body decoders
+//! * `types`   — CQL types, cell encoders, RESULT/ERROR body encoders, PreparedSpec, RowsSpec
+//! * `cluster` — cluster description and the synthesised system tables
+//! * `script`  — script actions, keys, handler type, trace events
+//! * `server`  — `MockCluster`: listeners, connections, script execution
+pub mod cluster;
+pub mod script;
+pub mod server;
+pub mod types;
+pub mod wire;
+
+pub use cluster::{ClusterSpec, ColumnDef, ColumnKind, ExtraTable, KeyspaceDef, NodeSpec, ServerOptions, TableDef, UdtDef, host_id_for};
+pub use script::{Action, CloseBy, CutKind, Ev, Handler, Key, NodeSel, ReqCtx, TraceEvent};
+pub use server::{ConnInfo, MockCluster};
+pub use types::{Cell, ColSpec, CqlType, DbErr, ErrorSpec, MetaMode, PreparedSpec, RowsSpec, cell, tablet_payload_value, uncell};
+pub use wire::{BatchReq, BatchStmt, ExecuteReq, Frame, QueryParams, QueryReq, Value, op};
